@@ -88,6 +88,26 @@ def store_on_stack():
     d["MUST_IS_ON_STACK"] = must_on_stack
     return d
 
+def expr_max_iterations():
+    """The bound eval_expr (src/dwarf.rs) sets on gimli's expression evaluator: the argument of
+    `set_max_iterations` in its body (a literal, or a `const` of the file).  None if the body sets no bound."""
+    s = strip_comments(read("src/dwarf.rs"))
+    body = fn_body(s, r"fn\s+eval_expr\s*<")
+    if body is None:
+        fallbacks.append("EXPR_MAX_ITERATIONS")
+        return 1000
+    m = re.search(r"\.set_max_iterations\(\s*([A-Za-z_0-9]+)\s*\)", body)
+    if not m:
+        return None
+    a = m.group(1)
+    if re.fullmatch(r"[0-9_]+(u32)?", a):
+        return int(a.replace("u32", "").replace("_", ""))
+    c = re.search(r"const\s+%s\s*:\s*u32\s*=\s*([0-9_]+)\s*;" % re.escape(a), s)
+    if not c:
+        fallbacks.append("EXPR_MAX_ITERATIONS")
+        return 1000
+    return int(c.group(1).replace("_", ""))
+
 def gen_steps():
     """Atomic-step list of next_global_modules_generation().
     fetch_add(k, _) -> [FetchAdd k]; x.load(_) ... x.store(v+k, _) -> [Load; StoreLoadedPlus k];
@@ -225,6 +245,7 @@ def main():
     regs = reg_order()
     sos = store_on_stack()
     width, init, steps = gen_steps()
+    maxit = expr_max_iterations()
     out = []
     out.append("(* GENERATED by tools/extract_consts.py from /repo's source - do not edit. *)")
     out.append("From Coq Require Import NArith List.")
@@ -244,6 +265,8 @@ def main():
     out.append("Definition GEN_WIDTH : N := %d." % width)
     out.append("Definition GEN_INIT : N := %d." % init)
     out.append("Definition SRC_DRAW_STEPS : list astep := [" + "; ".join(steps) + "].")
+    out.append("(* eval_expr's bound on gimli's expression evaluator (None: no bound is set) *)")
+    out.append("Definition EXPR_MAX_ITERATIONS : option N := %s." % ("None" if maxit is None else "Some %d" % maxit))
     text = "\n".join(out) + "\n"
     os.makedirs(os.path.dirname(OUT), exist_ok=True)
     old = None
@@ -257,7 +280,7 @@ def main():
     for f in fallbacks:
         print("FALLBACK", f)
     print(json.dumps({"CACHE_ENTRY_COUNT": cec, "ENCODE_REGISTERS": enc, "REG_ORDER": regs,
-                      "SOS": sos, "GEN_WIDTH": width, "GEN_INIT": init, "DRAW_STEPS": steps,
+                      "SOS": sos, "EXPR_MAX_ITERATIONS": maxit, "GEN_WIDTH": width, "GEN_INIT": init, "DRAW_STEPS": steps,
                       "NEW_SELECTORS": feat_sels, "NEW_UNGUARDED_NAMES": feat_names,
                       "fallbacks": fallbacks}))
 
